@@ -365,7 +365,7 @@ def clauses(tier):
             Clause(
                 "reload_" + kind, check_reload,
                 "non-trivial = a negative column sum in the accumulated data, or >= 2 saves on the same path",
-                reload_cases(kind), quick=q, thorough=q * 20,
+                reload_cases(kind), quick=q, thorough=q * 30,
             )
         )
     out.append(
@@ -373,7 +373,7 @@ def clauses(tier):
             "npz_overwrite_flag", check_flag,
             "a pre-existing archive with 1-4 foreign entries, saved with overwrite=True and =False under two "
             "(key, compress) settings; every case is non-trivial",
-            flag_cases, quick=250, thorough=5000,
+            flag_cases, quick=250, thorough=7500,
         )
     )
     out.append(
